@@ -42,6 +42,9 @@ type nodeSpec struct {
 	// of the metadata, i.e. spiffe://cluster.local/ns/<Namespace>/sa/<ServiceAccount>; "none" =
 	// plaintext connection (no verified identity); anything else = that SPIFFE id.
 	Ident string
+	// V4, V6: the workload's two addresses (both registered as endpoints of its own service); the
+	// IP-mode alternatives are built from them.
+	V4, V6 string
 }
 
 func (n *nodeSpec) clone() *nodeSpec {
@@ -231,20 +234,26 @@ type ipAlt struct {
 	ips  []string
 }
 
-// ipAltsOf: IP-mode and address alternatives relative to the base proxy's IPv4 address 10.x.y.z
-// (its IPv6 twin is fd00::x:z; the fixture registers both as endpoints of the proxy's own service).
+// ipAltsOf: IP-mode and address alternatives built from the workload's two addresses; the one the
+// base already has is left out.
 func ipAltsOf(base *nodeSpec) []ipAlt {
-	v4 := base.Meta.InstanceIPs[0]
-	p := strings.Split(v4, ".")
-	v6 := "fd00::" + p[1] + ":" + p[3]
-	pre := strings.Join(p[:3], ".")
-	return []ipAlt{
+	v4, v6 := base.V4, base.V6
+	pre := v4[:strings.LastIndexByte(v4, '.')]
+	all := []ipAlt{
+		{"v4-only", []string{v4}},
 		{"v6-only", []string{v6}},
 		{"dual-v4-first", []string{v4, v6}},
 		{"dual-v6-first", []string{v6, v4}},
 		{"other-v4", []string{pre + ".99"}},
 		{"two-v4", []string{v4, pre + ".98"}},
 	}
+	var out []ipAlt
+	for _, a := range all {
+		if strings.Join(a.ips, ",") != strings.Join(base.Meta.InstanceIPs, ",") {
+			out = append(out, a)
+		}
+	}
+	return out
 }
 
 func protoRegistryFind(name protoreflect.FullName) (protoreflect.MessageType, error) {
